@@ -1,6 +1,6 @@
 // C18 — random draws follow the named law, keep structural constraints, are reproducible
 // VF-VARIANT: san
-// VF-RULE: E3 (environment answers): the process-wide Mersenne-Twister is loaded with chosen output words, so every random draw becomes an enumerated choice. Structure: every generator stream on a word lattice (M values per draw plus the two extremes) for sampling with/without replacement, picks (weighted or not), cumulative-sum picks, multinomial draws and contingency tables over all margin vectors with small totals. Law: for each sampler x parameter setting the uniform lattice over the consumed draws (N per draw, first-attempt-accepted paths only) is pushed through the real sampler and the resulting distribution function is compared with the library's own cumulative function for the same parameters. Reproducibility: every history of sampler calls before setSeed(s) x every pair of calls after it, compared with a fresh process. Non-trivial: the stream was consumed by the call (structure), the lattice produced at least N/2 accepted paths (law), the history is non-empty (reproducibility).
+// VF-RULE: E3 (environment answers): the process-wide Mersenne-Twister is loaded with chosen output words, so every random draw becomes an enumerated choice. Structure: every generator stream on a word lattice (M values per draw plus the two extremes) for sampling with/without replacement, picks (weighted or not), cumulative-sum picks, multinomial draws and contingency tables over all margin vectors with small totals. Hidden-state paths: FullHmmTransitionMatrix::sample(2) on a 64x64 lattice of its two draws, for 2 and 3 states x 4 row sets x 3 histories before the call (nothing read; other rows set and read first; stationary vector read), the object rebuilt for every lattice point: first state against the stationary distribution of the current rows (power iteration), second against the row of the first. Law: for each sampler x parameter setting the uniform lattice over the consumed draws (N per draw, first-attempt-accepted paths only) is pushed through the real sampler and the resulting distribution function is compared with the library's own cumulative function for the same parameters. Reproducibility: every history of sampler calls before setSeed(s) x every pair of calls after it, compared with a fresh process. Non-trivial: the stream was consumed by the call (structure), the lattice produced at least N/2 accepted paths (law), the history is non-empty (reproducibility).
 // VF-BOUND: "all seeds" -> 4 (quick) / 16 (thorough) seeds; "follows the law" -> Kolmogorov distance on an N-per-draw lattice, tolerance 2d/N (d = uniform draws consumed), so distributional errors below that are invisible; weights/source sizes up to 5 (quick) / 6; margins with 2..3 rows/columns and total <= 6 (quick) / <= 8 and 2..4 (thorough) exhaustively plus structured margins up to total 200
 // VF-LEVEL: Exhaustive enumeration of the random environment on a lattice (no sampling): structural guarantees are checked on every enumerated stream; laws are checked as deterministic quadratures of the sampler's push-forward measure, which separates mean/rate/variance/scale confusions (they move the distribution function by > 0.3) from correct code (measured distance about 0.01).
 // VF-ASSUME: libstdc++ 12 mapping from 32-bit words to variates (observed, not assumed: the harness reads the generator position to see what a call consumed);; ASan/UBSan/libstdc++ assertions are sound detectors;; the library's own cumulative functions are the reference for the laws (they are checked independently in C08)
@@ -20,6 +20,10 @@
 #include <Bpp/Numeric/Prob/UniformDiscreteDistribution.h>
 #include <Bpp/Numeric/Prob/BetaDiscreteDistribution.h>
 #include <Bpp/Numeric/Prob/SimpleDiscreteDistribution.h>
+#include <Bpp/Numeric/Hmm/FullHmmTransitionMatrix.h>
+#include <Bpp/Numeric/Hmm/AutoCorrelationTransitionMatrix.h>
+#include <Bpp/Numeric/Hmm/HmmStateAlphabet.h>
+#include <Bpp/Numeric/Matrix/Matrix.h>
 using namespace bpp;
 using vf::str; using vf::num;
 
@@ -96,6 +100,30 @@ static double ksLattice(const LawCfg& cfg, int N, uint64_t& accepted, uint64_t& 
   return ks;
 }
 
+// ---- hidden-state paths (AbstractHmmTransitionMatrix::sample): minimal state alphabet --------------------------------------------
+struct HSt18 : Clonable { HSt18* clone() const override { return new HSt18(*this); } };
+class HAl18 : public virtual HmmStateAlphabet, public AbstractParametrizable {
+  std::vector<HSt18> st_;
+public:
+  HAl18(size_t n) : AbstractParametrizable(""), st_(n) {}
+  HAl18* clone() const override { return new HAl18(*this); }
+  const Clonable& getState(size_t i) const override { return st_[i]; }
+  size_t getNumberOfStates() const override { return st_.size(); }
+  bool worksWith(const HmmStateAlphabet& a) const override { return a.getNumberOfStates() == st_.size(); }
+};
+static const double HROWS[4][3][3] = {{{0.9, 0.05, 0.05}, {0.2, 0.7, 0.1}, {0.25, 0.25, 0.5}}, {{0.5, 0.25, 0.25}, {0.5, 0.25, 0.25}, {0.5, 0.25, 0.25}},
+                                      {{0.1, 0.2, 0.7}, {0.6, 0.3, 0.1}, {0.3, 0.3, 0.4}}, {{0.25, 0.5, 0.25}, {0.125, 0.75, 0.125}, {0.0625, 0.0625, 0.875}}};
+static std::vector<std::vector<double>> hrows(int which, int n) {   // n = 2: the leading 2x2 block renormalised
+  std::vector<std::vector<double>> P((size_t)n, std::vector<double>((size_t)n));
+  for (int i = 0; i < n; ++i) { double s = 0; for (int j = 0; j < n; ++j) s += HROWS[which][i][j]; for (int j = 0; j < n; ++j) P[(size_t)i][(size_t)j] = HROWS[which][i][j] / s; }
+  return P;
+}
+static std::vector<double> stationary(const std::vector<std::vector<double>>& P) {   // power iteration in long double: all entries are positive
+  size_t n = P.size(); std::vector<long double> v(n, 1.0L / n), w(n);
+  for (int it = 0; it < 4000; ++it) { for (size_t j = 0; j < n; ++j) { w[j] = 0; for (size_t i = 0; i < n; ++i) w[j] += v[i] * P[i][j]; } v = w; }
+  return std::vector<double>(v.begin(), v.end());
+}
+
 int main(int argc, char** argv) {
   vf::Runner R(argc, argv, "C18");
   vfh::silence();
@@ -114,6 +142,7 @@ int main(int argc, char** argv) {
   // each distribution's own continuous draw against its own cumulative function
   for (double a : {0.5, 4.0}) for (double b : {0.25, 4.0}) { auto d = std::make_shared<GammaDiscreteDistribution>(4, a, b); laws.push_back({"GammaDiscreteDistribution(alpha=" + num(a) + ",beta=" + num(b) + ").randC", a < 1 ? 4 : 3, [d] { return d->randC(); }, [d](double x) { return d->pProb(x); }}); }
   for (double off : {1.5, -1.0}) { auto d = std::make_shared<GammaDiscreteDistribution>(4, 2.0, 1.0, 0.05, 0.05, true, off); laws.push_back({"GammaDiscreteDistribution(alpha=2,beta=1,offset=" + num(off) + ").randC", 3, [d] { return d->randC(); }, [d](double x) { return d->pProb(x); }}); }
+  for (double off : {1.5, -1.0}) { auto d = std::make_shared<GammaDiscreteDistribution>(4, 2.0, 1.0, 0.05, 0.05, false, off); laws.push_back({"GammaDiscreteDistribution(alpha=2,beta=1,constant offset=" + num(off) + ").randC", 3, [d] { return d->randC(); }, [d](double x) { return d->pProb(x); }}); }
   for (double mu : {0.0, 1.0}) for (double s : {0.25, 4.0}) { auto d = std::make_shared<GaussianDiscreteDistribution>(4, mu, s); laws.push_back({"GaussianDiscreteDistribution(mu=" + num(mu) + ",sigma=" + num(s) + ").randC", 2, [d] { return d->randC(); }, [d](double x) { return d->pProb(x); }}); }
   for (double l : {0.25, 4.0}) { auto d = std::make_shared<ExponentialDiscreteDistribution>(4, l); laws.push_back({"ExponentialDiscreteDistribution(lambda=" + num(l) + ").randC", 1, [d] { return d->randC(); }, [d](double x) { return d->pProb(x); }}); }
   for (double l : {0.25, 4.0}) { auto d = std::make_shared<TruncatedExponentialDiscreteDistribution>(4, l, 2.0); laws.push_back({"TruncatedExponentialDiscreteDistribution(lambda=" + num(l) + ",tp=2).randC", 1, [d] { return d->randC(); }, [d](double x) { return d->pProb(x); }}); }
@@ -236,6 +265,42 @@ int main(int argc, char** argv) {
       }
       if (idx % 97 == 5) c.sample(in + " -> counts " + vf::vstr(cnt));
     }, 60.0);
+    // hidden-state paths: the first state follows the stationary distribution of the CURRENT rows, the second the row of the first;
+    // three histories before the call (rows set and nothing asked; other rows set and read, then these rows set; rows set and the
+    // stationary vector asked). The object is rebuilt for every lattice point: only the first sample after a change is of interest.
+    {
+      const int NH = 64;
+      R.space("structure:hmm-sample:FullHmmTransitionMatrix:n2..3:rows4:history3:N" + str(NH) + "x" + str(NH), 2 * 4 * 3, [=](uint64_t idx, vf::Case& c) {
+        std::vector<int> d = vf::digits(idx, {3, 4, 2}); int hist = d[0], which = d[1], n = 2 + d[2];
+        auto P = hrows(which, n), Q = hrows((which + 1) % 4, n); std::vector<double> pi = stationary(P);
+        std::string in = "FullHmmTransitionMatrix n=" + str(n) + " rows #" + str(which) + (hist == 0 ? " set, then sample(2)" : hist == 1 ? " set after other rows had been set and read, then sample(2)" : " set, stationary vector read, then sample(2)");
+        auto al = std::make_shared<HAl18>((size_t)n);
+        auto mat = [&](const std::vector<std::vector<double>>& A) { RowMatrix<double> M((size_t)n, (size_t)n); for (int i = 0; i < n; ++i) for (int j = 0; j < n; ++j) M((size_t)i, (size_t)j) = A[(size_t)i][(size_t)j]; return M; };
+        std::vector<std::vector<uint64_t>> cnt((size_t)n + 1, std::vector<uint64_t>((size_t)n + 1, 0));
+        Lattice LH{NH, false};
+        c.site("AbstractHmmTransitionMatrix::sample");
+        for (int k1 = 0; k1 < NH; ++k1) for (int k2 = 0; k2 < NH; ++k2) {
+          FullHmmTransitionMatrix T(al, "");
+          if (hist == 1) { T.setTransitionProbabilities(mat(Q)); (void)T.getPij(); (void)T.getEquilibriumFrequencies(); }
+          T.setTransitionProbabilities(mat(P));
+          if (hist == 2) (void)T.getEquilibriumFrequencies();
+          std::vector<uint32_t> ws; LH.U(k1, ws); LH.U(k2, ws); inject(ws, FILL);
+          std::vector<size_t> path = T.sample(2);
+          if (path.size() != 2 || path[0] >= (size_t)n || path[1] >= (size_t)n) { c.fail("hmm-sample|path-shape-or-state-out-of-range", in + " lattice point (" + str(k1) + "," + str(k2) + ")"); return; }
+          cnt[path[0]][path[1]]++;
+        }
+        c.out->evals += (uint64_t)NH * NH; c.nontrivial(); c.tag("hmm-sample-judged");
+        // each of the two draws is resolved to 1/NH: a state's share is exact to 1/NH per cumulative threshold (two thresholds bound an interior state)
+        double tol1 = 2.0 / NH, tol2 = 4.0 / NH;
+        for (int a = 0; a < n; ++a) {
+          double f = 0; for (int b = 0; b < n; ++b) f += (double)cnt[(size_t)a][(size_t)b]; f /= (double)NH * NH;
+          if (std::fabs(f - pi[(size_t)a]) > tol1) { c.fail("hmm-sample|first-state-does-not-follow-the-stationary-distribution-of-the-current-rows", in + ": state " + str(a) + " frequency " + num(f) + ", stationary " + num(pi[(size_t)a])); return; }
+          for (int b = 0; b < n; ++b) { double g = (double)cnt[(size_t)a][(size_t)b] / ((double)NH * NH), want = pi[(size_t)a] * P[(size_t)a][(size_t)b];
+            if (std::fabs(g - want) > tol2) { c.fail("hmm-sample|transition-does-not-follow-the-row-of-the-first-state", in + ": path (" + str(a) + "," + str(b) + ") frequency " + num(g) + ", expected " + num(want)); return; } }
+        }
+        if (idx % 5 == 0) c.sample(in + ": first-state frequencies within " + num(tol1) + " of " + vf::vstr(pi));
+      }, 60.0);
+    }
     // weighted sampling without replacement: distinct elements, never a zero-weight one while positive ones remain
     R.space("structure:weighted-getSample:len<=" + str(th ? 5 : 4), W.size(), [=](uint64_t idx, vf::Case& c) {
       const std::vector<double>& w = (*WP)[idx]; size_t n = w.size(); std::vector<int> vin; for (size_t i = 0; i < n; ++i) vin.push_back(100 + (int)i);
@@ -411,7 +476,7 @@ int main(int argc, char** argv) {
   }
 
   registerRcont2();
-  R.expectSeen("law:ks<=tol/4"); R.expectSeen("law:judged", laws.size()); /* every law configuration must have been judged */ R.expectSeen("getSample:all-streams"); R.expectSeen("rcont2:all-streams"); R.expectSeen("contingency-test->ok");
+  R.expectSeen("hmm-sample-judged"); R.expectSeen("law:ks<=tol/4"); R.expectSeen("law:judged", laws.size()); /* every law configuration must have been judged */ R.expectSeen("getSample:all-streams"); R.expectSeen("rcont2:all-streams"); R.expectSeen("contingency-test->ok");
   R.note("law tolerance is the lattice discretisation bound 2d/N; measured distances are written in the samples");
   R.note("a zero-weight entry is judged 'never drawn' on the interior lattice (u=0 exactly has probability 2^-64 and is part of the extremes only for range checks)");
   return R.finish();
